@@ -675,3 +675,66 @@ def rule_no_memo(chk):
                 "%s is decorated with @%s: its result is remembered across calls and goes stale when the state it depends on (registry, context, fields, time) changes" % (f.fq, name))
     if not bad:
         chk.ok("%s.state" % chk.pid, "no-memoised-function", "eliot/", "%d decorators examined in the modules this property depends on; none memoises" % n, sites=max(n, 1))
+
+
+# ---------------------------------------------------------------------------
+# statelessness of lookup / conversion / formatting functions
+
+STATELESS = {
+    "C02": [("_action", "TaskLevel.child"), ("_action", "TaskLevel.next_sibling"), ("_action", "TaskLevel.parent"), ("_action", "TaskLevel.as_list"),
+            ("_action", "TaskLevel.toString"), ("_action", "TaskLevel.fromString"), ("_action", "current_action")],
+    "C03": [("_errors", "ErrorExtraction.get_fields_for_exception"), ("_util", "safeunicode"), ("_util", "saferepr"), ("_action", "current_action")],
+    "C04": [("_action", "current_action")],
+    "C05": [("_action", "current_action")],
+    "C06": [("_action", "TaskLevel.toString"), ("_action", "TaskLevel.fromString"), ("_action", "Action.continue_task")],
+    "C07": [("_util", "safeunicode"), ("_util", "saferepr"), ("_output", "_safe_unicode_dictionary"), ("json", "json_default")],
+    "C08": [("_output", "_safe_unicode_dictionary"), ("_output", "Destinations.send")],
+    "C09": [("_action", "TaskLevel.parent"), ("_action", "TaskLevel.__eq__"), ("_action", "TaskLevel.__hash__"), ("parse", "Task.is_complete")],
+    "C10": [("json", "json_default"), ("json", "_dumps_unicode"), ("_output", "FileDestination.__call__")],
+    "C11": [("_output", "FileDestination.__call__"), ("_output", "Logger.write"), ("_output", "Destinations.send")],
+    "C13": [("_validation", "Field.serialize"), ("_validation", "Field.validate"), ("_validation", "_MessageSerializer.serialize"), ("_output", "Logger.write")],
+    "C14": [("_validation", "Field.validate"), ("_validation", "_MessageSerializer.validate"), ("testing", "check_for_errors")],
+    "C17": [("testing", "LoggedAction.of_type"), ("testing", "LoggedMessage.of_type"), ("testing", "LoggedAction.fromMessages"), ("testing", "LoggedAction.descendants"),
+            ("testing", "LoggedAction.type_tree"), ("testing", "assertContainsFields")],
+    "C18": [("_action", "log_call.logging_wrapper")],
+    "C20": [("prettyprint", "pretty_format"), ("prettyprint", "compact_format"), ("prettyprint", "_render_timestamp"), ("filter", "EliotFilter._evaluate")],
+}
+STATELESS["C01"] = sorted(set(STATELESS["C02"] + STATELESS["C09"] + STATELESS["C10"] + STATELESS["C13"]))
+
+
+def rule_stateless(chk):
+    """The lookup / conversion / formatting functions this property relies on keep no state:
+    no store into self.*, class or module state, no global/nonlocal, no mutation of a
+    module-level container (a hidden cache makes the answer depend on earlier calls)."""
+    ctx = chk.ctx
+    for mod, qual in STATELESS.get(chk.pid, []):
+        try:
+            f = ctx.func(mod, qual)
+        except AnalysisError:
+            continue
+        offenders = []
+        funcs = [f] + [g for g in f.module.funcs.values() if g.qualname.startswith(f.qualname + ".")]
+        for g in funcs:
+            for n in iter_own_nodes(g.node):
+                if isinstance(n, (ast.Global, ast.Nonlocal)) and g is f:
+                    offenders.append("%s %s" % (type(n).__name__.lower(), ",".join(n.names)))
+                if isinstance(n, (ast.Assign, ast.AugAssign, ast.AnnAssign)):
+                    tg = n.targets if isinstance(n, ast.Assign) else [n.target]
+                    for t in tg:
+                        b = t.value if isinstance(t, ast.Subscript) else t
+                        if isinstance(b, ast.Attribute) and isinstance(b.value, ast.Name) and b.value.id in ("self", "cls", "klass"):
+                            offenders.append(unparse(t)[:40])
+                        elif isinstance(b, (ast.Name, ast.Attribute)) and isinstance(t, ast.Subscript):
+                            r = ctx.p.resolve_expr_static(g.module, g, b)
+                            if r and r[0] in ("modvar", "classattr"):
+                                offenders.append(unparse(t)[:40])
+                if isinstance(n, ast.Call) and isinstance(n.func, ast.Attribute) and n.func.attr in MUTATORS:
+                    b = n.func.value
+                    if isinstance(b, ast.Attribute) and isinstance(b.value, ast.Name) and b.value.id in ("self", "cls"):
+                        offenders.append(unparse(n)[:40])
+                    elif isinstance(b, (ast.Name, ast.Attribute)):
+                        r = ctx.p.resolve_expr_static(g.module, g, b)
+                        if r and r[0] in ("modvar", "classattr"):
+                            offenders.append(unparse(n)[:40])
+        chk.req(not offenders, "%s.state" % chk.pid, "%s:stateless" % f.fq, chk.where(f), good="keeps no state between calls",
+                fail="%s now keeps state between calls (%s): its answer can depend on earlier calls (stale cache, cross-talk between threads)" % (f.fq, offenders[:3]))
